@@ -40,23 +40,28 @@ def splitConv : List String → List Sym → List Sym → Option (List Sym × Li
 def handle (line : String) : Out :=
   match line.splitOn "\t" with
   | [op, impl] =>
-    match groups op, groups impl with
-    | [["eng", proto, role, _], steps], [_, evs] =>
+    match groups op with
+    | [["eng", proto, role, _], steps] =>
       match findMachine proto role, roleNat role, parseSteps steps ⟨[], []⟩ with
       | some m, some r, some sc =>
-        let model := match replay m r evs with
-          | none => impl
-          | some rej => rej
+        -- an output that is not a summary + trace (e.g. `STUCK …`) is judged by the spec column
+        let model := match groups impl with
+          | [_, evs] => (match replay m r evs with
+            | none => impl
+            | some rej => rej)
+          | _ => "bad-trace"
         let c := conv m r (sc.locals.length + sc.peers.length + 1) m.init sc.locals sc.peers {}
         { model := model, spec := if (firstBad sc.peers).isSome then "*" else specEng c sc.locals }
       | _, _, _ => badOp
-    | [["pair", proto, _], walk], [_, evA, evB] =>
+    | [["pair", proto, _], walk] =>
       match findMachine proto "client", findMachine proto "server", splitConv walk [] [] with
       | some mc, some ms, some (cl, sv) =>
-        let model := match replay mc 1 evA, replay ms 2 evB with
-          | none, none => impl
-          | some rej, _ => "A:" ++ rej
-          | _, some rej => "B:" ++ rej
+        let model := match groups impl with
+          | [_, evA, evB] => (match replay mc 1 evA, replay ms 2 evB with
+            | none, none => impl
+            | some rej, _ => "A:" ++ rej
+            | _, some rej => "B:" ++ rej)
+          | _ => "bad-trace"
         -- the conversation must be a path of the machine for the demand to apply
         let c := conv mc 1 (cl.length + sv.length + 1) mc.init cl (sv.map .msg) {}
         let spec := if c.err = "-" && c.sent.length = cl.length && c.handled.length = sv.length then
@@ -64,7 +69,7 @@ def handle (line : String) : Out :=
           else "*"
         { model := model, spec := spec }
       | _, _, _ => badOp
-    | _, _ => { model := "bad-trace", spec := "*" }
+    | _ => badOp
   | _ => badOp
 
 end GV.Drv.C12
